@@ -24,12 +24,13 @@ type X = [3]int
 
 // world is the set of features the location ids of one case refer to.
 type world struct {
-	kind string          // "nc", "coding" or "bare"
-	t    gene.Transcript // location 0
-	nc   *gene.NonCodingTranscript
-	cd   *gene.CodingTranscript
-	oth  [2]gene.Transcript // locations 1 and 2
-	off  int
+	kind  string          // "nc", "coding" or "bare"
+	t     gene.Transcript // location 0
+	nc    *gene.NonCodingTranscript
+	cd    *gene.CodingTranscript
+	oth   [2]gene.Transcript // locations 1 and 2
+	off   int
+	again bool // inside the re-view with the orientation turned round
 }
 
 func newWorld(kind string, offset int, orient feat.Orientation, loc feat.Feature, cs, ce int) *world {
@@ -180,6 +181,19 @@ func (w *world) view(out *vt.W) {
 	}
 	ev["panic"] = p
 	out.Emit(ev)
+	// the same transcript seen again after its orientation was turned round (and once more after turning it
+	// back): what a view reports is a function of the present state, not of what an earlier view computed
+	if w.cd != nil && !w.again && w.cd.Orient != feat.NotOriented {
+		w.again = true
+		old := w.cd.Orient
+		w.cd.Orient = -old
+		w.view(out)
+		w.cd.Orient = old
+		if Big {
+			w.view(out)
+		}
+		w.again = false
+	}
 }
 
 // ---------------------------------------------------------------------------
